@@ -41,10 +41,15 @@ func FileNamingFormat(format, content string) (string, error) {
 	// 仅折叠 ASCII 字母：保持字节长度不变，下面求得的索引才能直接用于切分 format。
 	upperFormat := asciiUpper(format)
 	indexGo := strings.Index(upperFormat, flagGo)
-	indexDesigner := strings.Index(upperFormat, flagDesigner)
-	if indexGo < 0 || indexDesigner < 0 || indexGo > indexDesigner {
+	if indexGo < 0 {
 		return "", ErrNamingFormat
 	}
+	// DESIGNER 只在 GO 之后的部分查找：GO 之前出现的 designer 属于前缀。
+	indexDesigner := strings.Index(upperFormat[indexGo+len(flagGo):], flagDesigner)
+	if indexDesigner < 0 {
+		return "", ErrNamingFormat
+	}
+	indexDesigner += indexGo + len(flagGo)
 
 	var (
 		before, through, after string
